@@ -503,6 +503,61 @@ def interface(analysis: Analysis, res: RuleResult) -> None:
             res.add("C03-R6", f"{ver}: every registry key names a defined member", not unknown, c["module"], "" if not unknown else f"registry keys {unknown} name no member of this version: the handlers are unreachable")
 
 
+TABLE_MUTATORS = {"append", "extend", "insert", "pop", "remove", "clear", "update", "setdefault", "sort", "reverse", "popitem", "add", "discard", "__setitem__", "__delitem__"}
+
+
+def tables_not_mutated(analysis: Analysis, res, rule: str) -> None:
+    """The reflected per-version tables are what the package uses at run time only if no function changes them
+    after import. Def-use inside every function: a value reached from a const module's upper-case attribute by
+    subscripting / `.get` (or a local bound to one) must not be the receiver of a mutating method, the base of
+    an item store / delete, or the target of `+=` (a list `+=` extends in place). Copies (`list(...)`, `dict(...)`,
+    comprehensions, `+`) are fresh objects."""
+    n_reads = 0
+    for info in analysis.p.funcs.values():
+        if info.module.name.startswith("cli"):
+            continue
+        fn = info.node
+        if isinstance(fn, ast.Lambda):
+            continue
+        tainted = set()
+
+        def const_base(e) -> bool:
+            t = unparse(e)
+            return t == "const" or t.endswith(".const") or t.endswith("_const") or t.startswith("get_const(")
+
+        def is_table(e) -> bool:
+            if isinstance(e, ast.Attribute) and e.attr.isupper() and const_base(e.value):
+                return True
+            if isinstance(e, ast.Subscript):
+                return is_table(e.value)
+            if isinstance(e, ast.Call) and isinstance(e.func, ast.Attribute) and e.func.attr == "get":
+                return is_table(e.func.value)
+            return isinstance(e, ast.Name) and e.id in tainted
+
+        for _round in range(3):
+            for n in ast.walk(fn):
+                if isinstance(n, ast.Assign) and len(n.targets) == 1 and isinstance(n.targets[0], ast.Name) and is_table(n.value):
+                    tainted.add(n.targets[0].id)
+        for n in ast.walk(fn):
+            if isinstance(n, ast.Attribute) and n.attr.isupper() and const_base(n.value):
+                n_reads += 1
+            bad = None
+            if isinstance(n, ast.Call) and isinstance(n.func, ast.Attribute) and n.func.attr in TABLE_MUTATORS and is_table(n.func.value):
+                bad = unparse(n)[:70]
+            elif isinstance(n, (ast.Assign, ast.AugAssign, ast.Delete)):
+                tgts = n.targets if isinstance(n, (ast.Assign, ast.Delete)) else [n.target]
+                for t in tgts:
+                    if isinstance(t, ast.Subscript) and is_table(t.value):
+                        bad = unparse(n)[:70]
+                    if isinstance(n, ast.AugAssign) and is_table(t):
+                        bad = unparse(n)[:70]
+            if bad:
+                res.add(rule, f"{info.qual} / {bad}", False, common.where(analysis, info, n), "a per-version table (or a list / dict taken from it) is changed at run time: later validations - also those of other protocol versions sharing the object - use a different table than the reviewed one")
+    if n_reads < 4:
+        raise AnalysisError(f"{rule}: only {n_reads} reads of const tables found in functions (anchor vanished)")
+    res.add(rule, "no function mutates a per-version table or an object taken from it", True, "mysensors/", f"{n_reads} table reads in functions, none flows into a mutating operation")
+
+
 def run(analysis: Analysis, tier: str) -> RuleResult:
     res = RuleResult(PROP)
     res.explanation = [
@@ -514,6 +569,7 @@ def run(analysis: Analysis, tier: str) -> RuleResult:
     ]
     totality(analysis, res)
     conformance(analysis, res)
+    tables_not_mutated(analysis, res, "C03-R2")
     # "accepted exactly when ...": the decoder must not reject lines of its own accord (shared with C02-R1)
     from .c02 import decode_provenance
 
